@@ -64,6 +64,16 @@ def cases(tier, seed):
         p = float(rs.choice([.1, .2, .3, .5, .7, .9]))
         recs_u.append(['er', n, p, False, int(rs.randint(1 << 30))])
         recs_u.append(['named', 'er_connected', n, p / 2, int(rs.randint(1 << 30))])
+    # both special paths of randomizer_bin_und at once: dense graphs (complement branch) with isolated nodes
+    # (full in the complement), sparse graphs with hubs (full nodes), and mixtures, in random numbering
+    for t in range(40 if thorough else 14):
+        n = int(rs.randint(5, min(nmax, 14)))
+        p = float(rs.choice([.6, .75, .9]) if t % 2 == 0 else rs.choice([.15, .3, .45]))
+        base = ['er', n, p, False, int(rs.randint(1 << 30))]
+        k1, k2 = int(rs.randint(0, 3)), int(rs.randint(0, 3))
+        g = ['iso', base, k1] if k1 else base
+        g = ['hub', g, k2] if k2 else g
+        recs_u.append(['perm', g, int(rs.randint(1 << 30))] if t % 3 else g)
     recs_d = G.structured_dir(min(nmax, 14), seeds=(seed, seed + 1))
     for t in range(nrand):
         n = int(rs.randint(5, nmax + 1))
